@@ -54,7 +54,8 @@ type effCtx struct {
 	memo    map[*ssa.Function]*Effects
 	busy    map[*ssa.Function]bool
 	cyclic  bool
-	logMemo map[*ssa.Function]int
+	logKeys map[*ssa.Function]map[string]bool
+	logBody map[*ssa.Function]map[string]bool
 }
 
 func (c *effCtx) ofFunc(fn *ssa.Function) *Effects {
@@ -326,12 +327,8 @@ func (c *effCtx) ofBlocks(fn *ssa.Function, blocks []*ssa.BasicBlock) *Effects {
 			case *ssa.MakeClosure, *ssa.MakeChan:
 				// allocation counter only
 				e.Allocs["closure"] = famInfo{'C', nil}
-			case *ssa.Send:
-				e.All = true
-				e.Why = "channel send in " + fn.Name()
-			case *ssa.Select:
-				e.All = true
-				e.Why = "select in " + fn.Name()
+			case *ssa.Send, *ssa.Select:
+				// no heap effect
 			case ssa.CallInstruction:
 				e.add(c.ofCall(fn, i))
 			}
@@ -343,6 +340,13 @@ func (c *effCtx) ofBlocks(fn *ssa.Function, blocks []*ssa.BasicBlock) *Effects {
 func (c *effCtx) ofCall(fn *ssa.Function, ci ssa.CallInstruction) *Effects {
 	com := ci.Common()
 	e := newEffects()
+	if _, isGo := ci.(*ssa.Go); isGo {
+		if gfn := com.StaticCallee(); gfn != nil {
+			if gc := c.P.Contracts.Funcs[FuncKey(gfn)]; gc != nil && gc.Deferred {
+				return e
+			}
+		}
+	}
 	if com.IsInvoke() {
 		key := ifaceKey(com)
 		if fc := c.P.Contracts.Funcs[key]; fc != nil {
@@ -425,8 +429,87 @@ func fnTypes(fn *ssa.Function) []types.Type {
 	return sigTypes(fn.Signature, recv)
 }
 
-// mayLogBlocks: may the code perform a call that is recorded in a ghost call log?
-func (c *effCtx) mayLogBlocks(fn *ssa.Function, blocks []*ssa.BasicBlock) bool {
+// logKeysBlocks: the ghost call logs (contract keys) that the code may
+// advance, directly or through the module functions it calls. "*" stands
+// for every log (a call whose target is unknown); "gs:*" for the ghost sets.
+func (c *effCtx) logKeysBlocks(fn *ssa.Function, blocks []*ssa.BasicBlock) map[string]bool {
+	out := map[string]bool{}
+	seen := map[*ssa.Function]bool{}
+	c.logWalk(fn, blocks, out, seen)
+	return out
+}
+
+func (c *effCtx) logKeysFunc(fn *ssa.Function) map[string]bool {
+	if c.logKeys == nil {
+		c.logKeys = map[*ssa.Function]map[string]bool{}
+	}
+	if m, ok := c.logKeys[fn]; ok {
+		return m
+	}
+	out := map[string]bool{}
+	seen := map[*ssa.Function]bool{}
+	c.logVisit(fn, out, seen)
+	c.logKeys[fn] = out
+	return out
+}
+
+// logKeysBody: the logs advanced by the calls in fn's body (fn's own log
+// entry and ghost-set additions, which its contract describes, excluded).
+func (c *effCtx) logKeysBody(fn *ssa.Function) map[string]bool {
+	if c.logBody == nil {
+		c.logBody = map[*ssa.Function]map[string]bool{}
+	}
+	if m, ok := c.logBody[fn]; ok {
+		return m
+	}
+	out := map[string]bool{}
+	c.logBody[fn] = out
+	if fn.Blocks == nil {
+		return out
+	}
+	if fn.Pkg == nil || !strings.HasPrefix(fn.Pkg.Pkg.Path(), ModulePath) {
+		return out
+	}
+	if fc := c.P.Contracts.Funcs[FuncKey(fn)]; fc != nil && fc.Trusted {
+		return out
+	}
+	seen := map[*ssa.Function]bool{} // fn itself is not marked: a recursive call advances fn's own log
+	c.logWalk(fn, fn.Blocks, out, seen)
+	return out
+}
+
+func (c *effCtx) logVisit(fn *ssa.Function, out map[string]bool, seen map[*ssa.Function]bool) {
+	if fn == nil || seen[fn] {
+		return
+	}
+	seen[fn] = true
+	if fn.Pkg == nil || !strings.HasPrefix(fn.Pkg.Pkg.Path(), ModulePath) {
+		if fn.Pkg == nil && fn.Parent() != nil {
+			// closure of a module function keeps its parent's package
+		} else {
+			if fc := c.P.Contracts.Funcs[externKey(fn)]; fc != nil && fc.Logged {
+				out[externKey(fn)] = true
+			}
+			// library code does not call back into logged contracts unless it is handed a closure
+			return
+		}
+	}
+	if fc := c.P.Contracts.Funcs[FuncKey(fn)]; fc != nil {
+		if fc.Logged {
+			out[FuncKey(fn)] = true
+		}
+		if len(fc.GhostAdds) > 0 {
+			out["gs:*"] = true
+		}
+		if fc.Trusted {
+			// a trusted contract is taken as the whole description of the call, its effect on the logs included
+			return
+		}
+	}
+	c.logWalk(fn, fn.Blocks, out, seen)
+}
+
+func (c *effCtx) logWalk(fn *ssa.Function, blocks []*ssa.BasicBlock, out map[string]bool, seen map[*ssa.Function]bool) {
 	for _, b := range blocks {
 		for _, in := range b.Instrs {
 			ci, ok := in.(ssa.CallInstruction)
@@ -434,10 +517,19 @@ func (c *effCtx) mayLogBlocks(fn *ssa.Function, blocks []*ssa.BasicBlock) bool {
 				continue
 			}
 			com := ci.Common()
+			if _, isGo := in.(*ssa.Go); isGo {
+				if sf, ok := com.Value.(*ssa.Function); ok {
+					if fc := c.P.Contracts.Funcs[FuncKey(sf)]; fc != nil && fc.Deferred {
+						continue
+					}
+				}
+			}
 			if com.IsInvoke() {
 				fc := c.P.Contracts.Funcs[ifaceKey(com)]
-				if fc == nil || fc.Logged {
-					return true
+				if fc == nil {
+					out["*"] = true
+				} else if fc.Logged {
+					out[ifaceKey(com)] = true
 				}
 				continue
 			}
@@ -445,59 +537,47 @@ func (c *effCtx) mayLogBlocks(fn *ssa.Function, blocks []*ssa.BasicBlock) bool {
 			case *ssa.Builtin:
 				continue
 			case *ssa.Function:
-				if c.mayLogFunc(cal) {
-					return true
-				}
+				c.logVisit(cal, out, seen)
 			case *ssa.MakeClosure:
-				if c.mayLogFunc(cal.Fn.(*ssa.Function)) {
-					return true
-				}
+				c.logVisit(cal.Fn.(*ssa.Function), out, seen)
 			default:
 				if fc := c.P.Contracts.Funcs[FuncKey(fn)]; fc != nil {
 					if key, ok := fc.CallsAs[describeValue(fn, com.Value)]; ok {
-						if sc := c.P.Contracts.Funcs[key]; sc != nil && !sc.Logged {
+						if sc := c.P.Contracts.Funcs[key]; sc != nil {
+							if sc.Logged {
+								out[key] = true
+							}
 							continue
 						}
 					}
 				}
-				return true
+				out["*"] = true
 			}
 		}
 	}
-	return false
 }
 
-func (c *effCtx) mayLogFunc(fn *ssa.Function) bool {
-	if c.logMemo == nil {
-		c.logMemo = map[*ssa.Function]int{}
+// logHit: does the ghost variable gk belong to one of the logs in keys?
+func logHit(keys map[string]bool, gk string) bool {
+	if len(keys) == 0 {
+		return false
 	}
-	switch c.logMemo[fn] {
-	case 1:
-		return false // in progress or known false
-	case 2:
-		return true
-	}
-	c.logMemo[fn] = 1
-	if fn.Pkg == nil || !strings.HasPrefix(fn.Pkg.Pkg.Path(), ModulePath) {
-		if fc := c.P.Contracts.Funcs[externKey(fn)]; fc != nil {
-			if fc.Logged {
-				c.logMemo[fn] = 2
+	for _, pfx := range []string{"n:", "ret:", "arg:", "fret:"} {
+		if strings.HasPrefix(gk, pfx) {
+			if keys["*"] {
 				return true
+			}
+			rest := gk[len(pfx):]
+			for k := range keys {
+				if rest == k || strings.HasPrefix(rest, k+":") {
+					return true
+				}
 			}
 			return false
 		}
-		// library code does not call back into logged contracts unless it is handed a closure; conservative:
-		if fn.Blocks == nil {
-			return false
-		}
 	}
-	if fc := c.P.Contracts.Funcs[FuncKey(fn)]; fc != nil && (fc.Logged || len(fc.GhostAdds) > 0) {
-		c.logMemo[fn] = 2
-		return true
-	}
-	if c.mayLogBlocks(fn, fn.Blocks) {
-		c.logMemo[fn] = 2
-		return true
+	if strings.HasPrefix(gk, "gs:") {
+		return keys["*"] || keys["gs:*"]
 	}
 	return false
 }
